@@ -6,7 +6,8 @@
 //     available bytes" or a cut after c bytes for EVERY c < available (a cut is a deviation, bound k) => every
 //     fragmentation with <= k cut points in every cross-direction interleaving of the chunks; canonical-state pruning.
 //  B. message-sequence enumeration: every sequence of <= 2 (thorough 3) messages over types x payload sizes per mode,
-//     uniform chunkings {all, 1 byte, 3 bytes}; 65536-byte payloads, garbage lengths {0,1,4095}, 230-message runs
+//     uniform chunkings {all, 1 byte, 3 bytes}; 65536-byte payloads, payloads at the 4,000,000-byte limit with short-id
+//     and long-form message types, garbage lengths {0,1,4095}, 230-message runs
 //     across the 224-packet rekey.
 //  C. scripted peer: decoy packets (before the version packet and before each message), garbage, over-long garbage.
 //  D. tampering: every single bit of both wire transcripts of a v2 session; every bit of checksum+payload for v1.
